@@ -6,7 +6,7 @@
 From Coq Require Import List ZArith NArith.
 From GVgen Require Import GenerationGen ClonerGen.
 From GV Require Import Heap.Heap Heap.HeapProofs Heap.MarkSweep Heap.MarkSweepProofs
-     Heap.Clone Heap.CloneProofs Heap.CloneIso Heap.OpsProofs Heap.Refuted.
+     Heap.Clone Heap.CloneProofs Heap.CloneIso Heap.CloneTerm Heap.OpsProofs Heap.Refuted.
 Import ListNotations.
 
 (* On one branch of the tree, "generation <= the receiver's" implies "lives in the receiver's
@@ -100,6 +100,22 @@ Theorem C13_clone_iso : forall tr st0 recv cth full fuel v r c',
      lookup st0 a = Some oa -> memo (o_kind oa) = true -> b = b').
 Proof. exact clone_iso. Qed.
 Print Assumptions C13_clone_iso.
+
+(* The fuel (recursion depth) `deep_clone` is given suffices: more than the number of objects of the
+   store is always enough, so the theorems above that are conditional on `= Some` apply.  Partial:
+   for graphs without unclonable objects in which the objects that bypass `visited` ([memo] false:
+   extern functions, Reference / Lazy) hold no pointers — a cycle through cells alone makes the
+   implementation itself recurse without end. *)
+Theorem C13_clone_terminates_partial : forall tr st0 recv cth full fuel v,
+  inv_old_to_young tr st0 -> not_dangling st0 v ->
+  sharing_sound tr st0 recv full v -> verbatim_ok tr st0 recv v ->
+  (forall o ob, reach st0 (ptrs [v]) o -> lookup st0 o = Some ob -> clonable (o_kind ob) = true) ->
+  (forall o ob, reach st0 (ptrs [v]) o -> lookup st0 o = Some ob -> memo (o_kind ob) = false ->
+     forall f, In f (o_fields ob) -> exists z, f = Imm z) ->
+  length st0 < fuel ->
+  exists c' r, deep_clone fuel tr st0 recv cth full v = Some (c', r).
+Proof. exact clone_terminates_partial. Qed.
+Print Assumptions C13_clone_terminates_partial.
 
 (* Known findings: where the premise [verbatim_ok] fails. *)
 Theorem C13_clone_owned_by_receiver_refuted_closure_between_vms :
